@@ -110,6 +110,13 @@ def run(chk):
     chk.attempt("O2", lambda: exp_spline(chk, P))
     chk.attempt("O3", lambda: buck4_spline(chk, P))
     chk.attempt("O4", lambda: spline_modifier(chk, P))
+    # the splined region is the exp_spline form (and the buck4 polynomials) evaluated with the solved coefficients: its own
+    # deriv / deriv2 have to be the derivatives of its value for the join to be smooth (the form identities of C07, here)
+    from ..report import RuleView
+    from . import c07
+    chk.rule("C10.O8", "deriv and deriv2 of the built-in forms (exp_spline, polynomial, ... as used inside the splined region) are d/dr of their value", 20)
+    view8 = RuleView(chk, "C10.O8")
+    chk.attempt("O8", lambda: c07.builtin_forms(view8, P))
     chk.rule("C10.O7", "a second spline made in the same process, with one radius changed, solves the system of its own radii", 5)
     chk.attempt("O7", lambda: second_spline(chk, P))
     chk.attempt("O5", lambda: buck4_shorthand(chk, P))
